@@ -88,6 +88,14 @@ func (s *sequencer) evolve() {
 	}
 }
 
+// restartTip starts a new round at the latest block, with at least one transaction.
+func (s *sequencer) restartTip() {
+	s.mu.Lock()
+	defer s.mu.Unlock()
+	s.vr.restart(s.vr.hi)
+	s.vr.appendTxs(s.vr.hi)
+}
+
 // isCurrent: every entry of the view is a round the sequencer currently serves.
 func (s *sequencer) isCurrent(v *preconfirmed.ChainReader) bool {
 	s.mu.Lock()
@@ -164,11 +172,14 @@ func (s *sequencer) Class(_ context.Context, h *felt.Felt) (core.ClassDefinition
 
 func (h *harness) pollerStage(rng *lib.RNG, rounds int) {
 	for i := 0; i < rounds; i++ {
-		h.pollerRound(rng.Fork(uint64(i)), i)
+		h.pollerRound(rng.Fork(uint64(i)), i, false)
 	}
+	// one more round in which the sequencer serves one ill-formed full block (receipts shorter
+	// than transactions): the real Poller must survive it
+	h.pollerRound(rng.Fork(uint64(rounds)), rounds, true)
 }
 
-func (h *harness) pollerRound(rng *lib.RNG, round int) {
+func (h *harness) pollerRound(rng *lib.RNG, round int, malformed bool) {
 	const nBase = 3
 	base, states := genBase(rng, nBase)
 	node, err := buildBase(rng.Bool(), base)
@@ -207,7 +218,11 @@ func (h *harness) pollerRound(rng *lib.RNG, round int) {
 	go func() {
 		defer wg.Done()
 		if err, panicked, stack := lib.Try(func() error { poller.Run(ctx); return nil }); panicked {
-			violate("poller-run-panics", fmt.Sprintf("preconfirmed.Poller.Run panicked: %v\n%s", err, clip(stack)))
+			if malformed && !sim.badOnce.Load() {
+				violate("poller-panics-on-malformed-update", fmt.Sprintf("preconfirmed.Poller.Run panicked on an update whose receipts are shorter than its transactions (the poller goroutine of a node dies): %v\n%s", err, clip(stack)))
+			} else {
+				violate("poller-run-panics", fmt.Sprintf("preconfirmed.Poller.Run panicked: %v\n%s", err, clip(stack)))
+			}
 		}
 	}()
 
@@ -314,9 +329,16 @@ func (h *harness) pollerRound(rng *lib.RNG, round int) {
 	}
 	// the canonical chain and the sequencer move
 	steps := h.f.Scale(60, 400)
+	if malformed {
+		steps = 25
+	}
 	moves := 0
 	for i := 0; i < steps; i++ {
 		time.Sleep(time.Duration(2+rng.Intn(6)) * time.Millisecond)
+		if malformed && i == 8 {
+			sim.restartTip() // a new round with transactions: the next poll gets a full block
+			sim.badOnce.Store(true)
+		}
 		switch c := rng.Intn(10); {
 		case c < 6:
 			sim.evolve()
@@ -385,6 +407,13 @@ func (h *harness) pollerRound(rng *lib.RNG, round int) {
 	h.res.HitN("poller-state-comparisons-discarded-moved", int(discarded.Load()))
 	h.res.HitN("poller-reader-views-nonempty", int(nonEmpty.Load()))
 	h.res.HitN(fmt.Sprintf("poller-max-view-len=%d", min(maxLen.Load(), 5)), 1)
+	if malformed {
+		if sim.badOnce.Load() {
+			h.res.Fatalf("poller stage: the ill-formed block was never served")
+		} else {
+			h.res.Hit("poller-malformed-block-served")
+		}
+	}
 	h.res.Case(fmt.Sprintf("poller/%d/%d", h.f.Seed, round), nonEmpty.Load() > 0)
 	for _, f := range found {
 		h.res.Violate(lib.Violation{Sig: f.sig, What: f.what,
